@@ -81,3 +81,10 @@ theorem get_set_ne (m : Mem) (i j : Nat) (c : Cell) (h : i ≠ j) : Mem.get (m.s
 theorem get_set_self (m : Mem) (i : Nat) (c : Cell) (h : i < m.length) : Mem.get (m.set i c) i = c := by
   simp [Mem.get_eq, List.getElem?_set, h]
 end AnyVec
+
+namespace AnyVec
+theorem memmove_get (m : Mem) (src dst n k : Nat) (hs : src + n ≤ m.length) (hd : dst + n ≤ m.length) :
+    Mem.get (memmove m src dst n) k = if dst ≤ k ∧ k < dst + n then m.get (src + (k - dst)) else m.get k := by
+  simp only [Mem.get_eq, memmove_getElem? m src dst n k hs hd]
+  split <;> rfl
+end AnyVec
